@@ -15,7 +15,7 @@ RULE = ('single calls: id relation {equal, different, null, type-confused ("1" f
         'result / error (registered and unregistered code, data absent / null / value) x invalid bodies (every JSON type, missing or '
         'wrong members) x strict on/off x sync/async x error base class. batches of 1..3 (quick) / 1..4 (thorough) calls plus an '
         'optional notification: every permutation of the response array, every single omission / duplication / addition, "1" for 1, a '
-        'null-id element added at each position, every success/error mix, batch-level error object, invalid arrays. distinct = '
+        'null-id element added at each position, every success/error mix, batch-level error object, invalid arrays; a quarter of the cases on a client that has already completed a call and a batch. distinct = '
         'distinct (mode, requests, body); non-trivial = the body is a JSON object (single) / non-empty array (batch)')
 EXHAUSTIVE = {'quick': True, 'thorough': True}
 TRUSTED_BASE = ['json.loads / json.dumps (the body documents are float-free JSON values)']
@@ -114,6 +114,9 @@ def generate(seed, tier):
         for strict in (True, False):
             is_async = rnd.random() < 0.5
             cases.append({'t': 'batch', 'strict': strict, 'async': is_async, 'base': 'JsonRpcError', 'qs': qs, 'body': b})
+    for i, c in enumerate(cases):
+        if i % 4 == 0:
+            c['warm'] = True
     return cases
 
 
@@ -121,6 +124,13 @@ def observe(case):
     script = ce.Script([('text', ce.body_text(tuple(case['body'])))])
     base = getattr(pjrpc.exceptions, case['base'])
     cl = ce.make_client(case['async'], script, strict=case['strict'], error_cls=base)
+    if case.get('warm'):
+        # the same client has already completed a call and a batch: matching must not depend on what was matched before
+        script.steps = [('text', json.dumps({'jsonrpc': '2.0', 'id': 'w', 'result': 'warm'})),
+                        ('text', json.dumps([{'jsonrpc': '2.0', 'id': 1, 'result': 'w1'}, {'jsonrpc': '2.0', 'id': 2, 'error': {'code': 1, 'message': 'w'}}]))] + script.steps
+        ce.run(case['async'], lambda: cl.send(pjrpc.Request('warm', id='w')))
+        ce.run(case['async'], lambda: cl.batch.send(pjrpc.BatchRequest(pjrpc.Request('a', id=1), pjrpc.Request('b', id=2))))
+        script.sent = []
     if case['t'] == 'single':
         req = ce.mk_request(case['q'])
         o = ce.run(case['async'], lambda: cl.send(req))
@@ -157,7 +167,7 @@ def encode(case, obs):
 
 
 def case_key(case):
-    return json.dumps([case['t'], case['strict'], case['async'], case['base'], case.get('q'), case.get('qs'), case['body']], default=repr)
+    return json.dumps([case['t'], case['strict'], case['async'], case['base'], case.get('q'), case.get('qs'), case['body'], case.get('warm')], default=repr)
 
 
 def distribution(cases, obs):
